@@ -104,6 +104,46 @@ theorem machine_first_available_records_pull (s : MacState) (t : Nat) (a : Ans) 
   simp [hpc, hf, hi, MacState.afterPull, hdraw, MacState.requestSlot]
   split <;> simp
 
+/-! ### out-edge side of the Machine: the edge a worker pushes on is the edge the node records.
+Blocking FIRST_AVAILABLE: the worker reserves on every out-edge, and in the step in which it resumes it records the lowest-index
+granted edge, withdraws every other request and puts on exactly that edge.  Index / ROUND_ROBIN / user policies (blocking): the selected
+edge is recorded and a space request is placed on that edge only; the later put goes to the edge that was requested. -/
+
+theorem updRep_outsel (s : MacState) (t : Nat) : (s.updRep t).outsel = s.outsel := by
+  unfold MacState.updRep; split <;> rfl
+
+theorem machine_first_available_push_records_edge (s : MacState) (i : Nat) (w : Worker) (t : Nat) (a : Ans) (toks : List Nat) (idx : Nat)
+    (hpc : w.pc = .outAny toks) (hf : firstTrig toks a.trig = some idx) :
+    (s.worker i w t a).1.outsel = s.outsel ++ [idx] ∧
+    (s.worker i w t a).2 = (others toks idx).map (fun p => Call.cp p.1 p.2) ++ [.put idx (toks.getD idx 0) w.item, .awaitReq] := by
+  unfold MacState.worker
+  simp only [hpc, hf]
+  refine ⟨?_, trivial⟩
+  show ((MacState.updRep _ t).release i w).outsel = _
+  have : ∀ (x : MacState), (x.release i w).outsel = x.outsel := fun x => by simp [MacState.release, MacState.setWorker]
+  rw [this, updRep_outsel]
+
+theorem machine_policy_push_requests_selected_edge (s : MacState) (i : Nat) (w : Worker) (t : Nat) (a : Ans) (k : Int) (rr' : Nat) (c0 : List Call)
+    (hpc : w.pc = .timer) (hpol : s.cfg.outPol ≠ .fa) (hb : s.cfg.blocking = true)
+    (hsel : selIdx s.cfg.outPol s.rrOut s.cfg.nout a = (some k, rr', c0)) (h0 : 0 ≤ k) (h1 : k < s.cfg.nout) :
+    (s.worker i w t a).1.outsel = s.outsel ++ [k.toNat] ∧
+    ∃ tok, (s.worker i w t a).2 = c0 ++ [.rp k.toNat tok, .awaitTok] := by
+  have hk : ¬ (k < 0 ∨ k ≥ (s.cfg.nout : Int)) := by omega
+  unfold MacState.worker
+  simp only [hpc]
+  cases hp : s.cfg.outPol with
+  | fa => exact absurd hp hpol
+  | rr => rw [hp] at hsel; simp only [hsel, hk, ↓reduceIte, hb]; exact ⟨by simp [MacState.setWorker, updRep_outsel], ⟨_, rfl⟩⟩
+  | rnd => rw [hp] at hsel; simp only [hsel, hk, ↓reduceIte, hb]; exact ⟨by simp [MacState.setWorker, updRep_outsel], ⟨_, rfl⟩⟩
+  | const c => rw [hp] at hsel; simp only [hsel, hk, ↓reduceIte, hb]; exact ⟨by simp [MacState.setWorker, updRep_outsel], ⟨_, rfl⟩⟩
+  | user => rw [hp] at hsel; simp only [hsel, hk, ↓reduceIte, hb]; exact ⟨by simp [MacState.setWorker, updRep_outsel], ⟨_, rfl⟩⟩
+
+theorem machine_policy_put_goes_to_requested_edge (s : MacState) (i : Nat) (w : Worker) (t : Nat) (a : Ans) (e tok : Nat)
+    (hpc : w.pc = .outTok e tok) (ht : a.trig.contains tok = true) :
+    (s.worker i w t a).2 = [.put e tok w.item, .awaitReq] := by
+  unfold MacState.worker
+  simp only [hpc, ht, Bool.not_true, Bool.false_eq_true, ↓reduceIte]
+
 /-- non-vacuity on the RECORDED run of Props/C09 (blocking machine, FIRST_AVAILABLE in): the recorded history [0, 0, 0] is the
     sequence of in-edges the three pulls used -/
 example : (MacState.runActs (MacState.init { wc := 1, blocking := true }) C09.demoBlocking).insel = [0, 0, 0] := by decide +kernel
